@@ -49,7 +49,7 @@ ENTRIES = {
 def params(ck):
     # chunks, runs per chunk, ops, universe length, random subsets per crash point, and the number of
     # unsynced writes up to which every survivor subset is enumerated instead of sampled
-    return (1, 10, 14, 14, 3, 5) if ck.quick else (5, 4, 30, 24, 4, 7)
+    return (1, 10, 14, 14, 3, 5) if ck.quick else (4, 4, 30, 24, 4, 7)
 
 
 def big_params(ck):
